@@ -489,7 +489,11 @@ class Folder:
                     counts[n.id] = counts.get(n.id, 0) + 1
             for p in f.params():
                 env[p] = Unknown('parameter')
-            for st in f.node.body:
+            from .srcmodel import walk_local
+            stmts = [x for x in walk_local(f.node)
+                     if isinstance(x, (ast.Assign, ast.FunctionDef, ast.AsyncFunctionDef))]
+            stmts.sort(key=lambda x: (x.lineno, x.col_offset))
+            for st in stmts:
                 if isinstance(st, ast.Assign) and len(st.targets) == 1 \
                         and isinstance(st.targets[0], ast.Name):
                     nm = st.targets[0].id
